@@ -149,7 +149,7 @@ theorem env_same (s : Sys) (e : EnvOp) (hl : ∀ u b a, e ≠ .seedLegacy u b a)
 inductive Touch (s s' : Sys) (m : Msg) (ms : List Msg) : Prop where
   | none (h : SameContracts s s')
       (hm : (∀ a b c d, m ≠ .wasm a b c d) ∨ ∃ a b c d, m = .wasm a b c d ∧ (b = swapA ∨ b = sinkA))
-      (hs : SentBy swapA ms)
+      (hs : SentBy swapA ms) (hb : ∀ x ∈ ms, ∃ t d a, x = Msg.bankSend swapA t d a)
   | hub (s1 : Sys) (sender : Addr) (funds : List (Denom × Nat)) (hm : HubMsg)
       (heq : m = .wasm sender hubA (.hub hm) funds) (h1 : SameContracts s s1)
       (hc : s1.chain.deleg = s.chain.deleg ∧ s1.chain.delegSet = s.chain.delegSet ∧ s'.chain = s1.chain)
@@ -190,32 +190,32 @@ theorem handle_touch (s s' : Sys) (m : Msg) (ms : List Msg) (hx : s.handle m = .
     · rename_i s1 h1
       have b := bankMove_same s s1 src dst d amt h1
       cases hx
-      exact .none b (chainMsg (fun _ _ _ _ h => by cases h)) (SentBy.nil _)
+      exact .none b (chainMsg (fun _ _ _ _ h => by cases h)) (SentBy.nil _) (fun _ h => by cases h)
   | delegate who v amt =>
     simp only [Sys.handle] at hx
     exc_norm at hx
     exc_split at hx
-    exact .none ⟨rfl, rfl, rfl, rfl, rfl, rfl⟩ (chainMsg (fun _ _ _ _ h => by cases h)) (SentBy.nil _)
+    exact .none ⟨rfl, rfl, rfl, rfl, rfl, rfl⟩ (chainMsg (fun _ _ _ _ h => by cases h)) (SentBy.nil _) (fun _ h => by cases h)
   | undelegate who v amt =>
     simp only [Sys.handle] at hx
     exc_norm at hx
     exc_split at hx
-    exact .none ⟨rfl, rfl, rfl, rfl, rfl, rfl⟩ (chainMsg (fun _ _ _ _ h => by cases h)) (SentBy.nil _)
+    exact .none ⟨rfl, rfl, rfl, rfl, rfl, rfl⟩ (chainMsg (fun _ _ _ _ h => by cases h)) (SentBy.nil _) (fun _ h => by cases h)
   | redelegate who src dst amt =>
     simp only [Sys.handle] at hx
     exc_norm at hx
     exc_split at hx
-    exact .none ⟨rfl, rfl, rfl, rfl, rfl, rfl⟩ (chainMsg (fun _ _ _ _ h => by cases h)) (SentBy.nil _)
+    exact .none ⟨rfl, rfl, rfl, rfl, rfl, rfl⟩ (chainMsg (fun _ _ _ _ h => by cases h)) (SentBy.nil _) (fun _ h => by cases h)
   | withdrawReward who v =>
     simp only [Sys.handle] at hx
     exc_norm at hx
     exc_split at hx
-    exact .none ⟨rfl, rfl, rfl, rfl, rfl, rfl⟩ (chainMsg (fun _ _ _ _ h => by cases h)) (SentBy.nil _)
+    exact .none ⟨rfl, rfl, rfl, rfl, rfl, rfl⟩ (chainMsg (fun _ _ _ _ h => by cases h)) (SentBy.nil _) (fun _ h => by cases h)
   | setWithdrawAddr who a =>
     simp only [Sys.handle] at hx
     exc_norm at hx
     exc_split at hx
-    exact .none ⟨rfl, rfl, rfl, rfl, rfl, rfl⟩ (chainMsg (fun _ _ _ _ h => by cases h)) (SentBy.nil _)
+    exact .none ⟨rfl, rfl, rfl, rfl, rfl, rfl⟩ (chainMsg (fun _ _ _ _ h => by cases h)) (SentBy.nil _) (fun _ h => by cases h)
   | wasm sender target call funds =>
     simp only [Sys.handle] at hx
     exc_norm at hx
@@ -299,19 +299,22 @@ theorem handle_touch (s s' : Sys) (m : Msg) (ms : List Msg) (hx : s.handle m = .
                   · simp only [t7, if_true] at hx
                     exc_split at hx
                     all_goals
-                      refine .none sc (Or.inr ⟨_, _, _, _, rfl, Or.inl t7⟩) ?_
-                      first | exact SentBy.nil _ | exact SentBy.cons rfl (SentBy.nil _)
+                      refine .none sc (Or.inr ⟨_, _, _, _, rfl, Or.inl t7⟩) ?_ ?_
+                      · first | exact SentBy.nil _ | exact SentBy.cons rfl (SentBy.nil _)
+                      · intro x hx'
+                        simp only [List.mem_cons, List.mem_nil_iff, or_false] at hx'
+                        try exact ⟨_, _, _, hx'⟩
                   · simp only [t7, if_false] at hx
                     exc_split at hx
                     rename_i t8
-                    exact .none sc (Or.inr ⟨_, _, _, _, rfl, Or.inr t8⟩) (SentBy.nil _)
+                    exact .none sc (Or.inr ⟨_, _, _, _, rfl, Or.inr t8⟩) (SentBy.nil _) (fun _ h => by cases h)
 
 /-- every message emitted while handling `m` is sent by the contract that handled it -/
 theorem handle_sentBy (s s' : Sys) (m : Msg) (ms : List Msg) (hx : s.handle m = .ok (s', ms)) :
     (∀ a b c d, m = .wasm a b c d → SentBy b ms) ∧ ((∀ a b c d, m ≠ .wasm a b c d) → ms = []) := by
   refine ⟨fun a b c d hm => ?_, fun hm => ?_⟩
   · cases handle_touch s s' m ms hx with
-    | none h hm' hs =>
+    | none h hm' hs _ =>
       rcases hm' with hm' | ⟨a', b', c', d', heq, ht⟩
       · exact absurd hm (hm' a b c d)
       · rw [hm] at heq; injection heq with _ e2 _ _
@@ -372,7 +375,7 @@ theorem exec_rejected_hub (s : Sys) (sender : Addr) (funds : List (Denom × Nat)
     exfalso
     obtain ⟨s', ms⟩ := r
     cases handle_touch s s' _ ms hh with
-    | none _ hm' _ =>
+    | none _ hm' _ _ =>
       rcases hm' with hm' | ⟨a, b, c, d, heq, ht⟩
       · exact hm' _ _ _ _ rfl
       · injection heq with _ e2 _ _
@@ -398,7 +401,7 @@ theorem exec_rejected_disp (s : Sys) (sender : Addr) (funds : List (Denom × Nat
     exfalso
     obtain ⟨s', ms⟩ := r
     cases handle_touch s s' _ ms hh with
-    | none _ hm' _ =>
+    | none _ hm' _ _ =>
       rcases hm' with hm' | ⟨a, b, c, d, heq, ht⟩
       · exact hm' _ _ _ _ rfl
       · injection heq with _ e2 _ _
@@ -424,7 +427,7 @@ theorem exec_rejected_reward (s : Sys) (sender : Addr) (funds : List (Denom × N
     exfalso
     obtain ⟨s', ms⟩ := r
     cases handle_touch s s' _ ms hh with
-    | none _ hm' _ =>
+    | none _ hm' _ _ =>
       rcases hm' with hm' | ⟨a, b, c, d, heq, ht⟩
       · exact hm' _ _ _ _ rfl
       · injection heq with _ e2 _ _
